@@ -618,6 +618,9 @@ func incomings(v ssa.Value) []Incoming {
 			}
 		}
 	}
+	if incs := cellIncomings(v); incs != nil {
+		return incs
+	}
 	phi, ok := v.(*ssa.Phi)
 	if !ok {
 		return []Incoming{{Val: v}}
